@@ -189,9 +189,9 @@ def samePerm (a b : List Subnet) : Bool := a.length == b.length && a.all b.conta
 /-- the part of `preAllocateIP` after the count: `have_` = `len(fips)` counted under the lock -/
 def preFinish (s : State) (name : String) (size have_ : Nat) (order : List Subnet) (picks : List IP) : State × PreOut :=
   if (nodeSubnetsByRanges s []).isEmpty then (s, { res := .short, real := have_ })
-  else if !samePerm order (nodeSubnetsByRanges s []) then (s, { res := .inadmissible })
   else if size ≤ have_ then
     (if picks.isEmpty then (s, { res := .ok, real := have_ }) else (s, { res := .inadmissible }))
+  else if !samePerm order (nodeSubnetsByRanges s []) then (s, { res := .inadmissible })
   else
     match (preLoop (poolKey name) (size - have_) s order picks 0).2.1 with
     | .ok => ((preLoop (poolKey name) (size - have_) s order picks 0).1, { res := .ok, real := size })
